@@ -6,6 +6,7 @@ mod alloclog;
 mod chain;
 mod classify;
 mod common;
+mod envelope;
 mod fairness;
 mod framing;
 mod jsoneq;
@@ -63,6 +64,7 @@ fn main() {
         "cancel" => framing::run_c07(tier),
         "outframe" => outframe::run(tier),
         "limits" => limits::run(tier),
+        "envelope" => envelope::run(tier),
         "classify" => classify::run(tier),
         "jsoneq" => jsoneq::run(tier),
         "server" => server::run_c08(tier),
@@ -83,6 +85,7 @@ fn replay(v: &Value, path: &str) -> i32 {
         "C02" => outframe::replay(v),
         "C06" | "C11" => chain::replay(v),
         "C17" => limits::replay(v),
+        "C05" => envelope::replay(v),
         "C04" => classify::replay(v),
         "C03" => jsoneq::replay(v),
         "C08" | "C09" | "C10" => server::replay(v),
